@@ -320,3 +320,31 @@ __CPROVER_ensures(!self->g_has_unbounded && !self->g_has_bounded && g_uq_dtor + 
     harness='  TCq* t; TC_dtor(t);',
     dropped=['explicit destructor calls on union members as destructor stubs + liveness flag'], trusted=['queue destructors (node list walk / buffer release) are not covered'], min_obligations=8)
 UNITS += [tc_ctor, tc_dtor]
+
+# ------------------------------------------------------------------ ScopedThreadContext constructor
+SCT_PRELUDE = r'''
+typedef uint8_t QueueType; typedef uint8_t HugePagesPolicy;
+typedef struct ThreadContext { QueueType g_qt; size_t g_initial, g_max; HugePagesPolicy g_hp; } ThreadContext;
+typedef struct STC { ThreadContext* _thread_context; } STC;
+ThreadContext g_new_tc; size_t g_makes, g_registers; ThreadContext* g_registered;
+/* std::make_shared<ThreadContext>(...): the ThreadContext constructor (unit TC.ctor) with these arguments */
+static inline ThreadContext* TC_make_shared(QueueType qt, size_t initial, size_t max, HugePagesPolicy hp) { g_makes++; g_new_tc.g_qt = qt; g_new_tc.g_initial = initial; g_new_tc.g_max = max; g_new_tc.g_hp = hp; return &g_new_tc; }
+void TCM_register(ThreadContext* tc) __CPROVER_requires(tc != NULL) __CPROVER_assigns(g_registers, g_registered) __CPROVER_ensures(g_registers == OLD(g_registers) + 1 && g_registered == tc);
+'''
+scoped_ctor = dict(
+    name='TCM.scoped_ctor', primary='C03', props={'C03', 'C20'}, kind='S',
+    desc='ScopedThreadContext constructor (a thread\'s first log call): one ThreadContext is created with the frontend\'s queue type and capacities (in that order) and that very context is registered with the manager once',
+    structs=[], prelude=SCT_PRELUDE, enforce='STC_ctor', replace=['TCM_register'],
+    funcs=[dict(src=dict(header=H, cls='ScopedThreadContext', name='ScopedThreadContext', nth=0, part='ctor'), src_params=['queue_type', 'initial_queue_capacity', 'unbounded_queue_max_capacity', 'huge_pages_policy'],
+                cfun='STC_ctor', sig='void STC_ctor(STC* self, QueueType queue_type, size_t initial_queue_capacity, size_t unbounded_queue_max_capacity, HugePagesPolicy huge_pages_policy)', cls_c='STC',
+                member_fields=['_thread_context'],
+                rules=[(r'std::make_shared<ThreadContext>\(', 'TC_make_shared('), (r'ThreadContextManager::instance\(\)\s*\.\s*register_thread_context\(', 'TCM_register(')],
+                contract=r'''
+__CPROVER_requires(__CPROVER_is_fresh(self, sizeof(*self)) && g_makes == 0 && g_registers == 0)
+__CPROVER_assigns(self->_thread_context, g_makes, g_registers, g_registered, __CPROVER_object_whole(&g_new_tc))
+__CPROVER_ensures(g_makes == 1 && self->_thread_context == &g_new_tc && g_new_tc.g_qt == queue_type && g_new_tc.g_initial == initial_queue_capacity && g_new_tc.g_max == unbounded_queue_max_capacity && g_new_tc.g_hp == huge_pages_policy) /*@ C03 "a thread's context is built with the configured queue type, initial capacity and maximum capacity - each in its own place" */
+__CPROVER_ensures(g_registers == 1 && g_registered == self->_thread_context) /*@ C03,C20 "the context the thread will log through is the one the backend learns about, registered exactly once" */
+''')],
+    harness='  STC* s; QueueType q; size_t a; size_t b; HugePagesPolicy h; STC_ctor(s, q, a, b, h);',
+    dropped=['shared_ptr as a raw pointer', 'the debug-only once-per-thread assertion (NDEBUG)'], trusted=['ThreadContext constructor by unit TC.ctor; register_thread_context by unit TCM.register'], min_obligations=5)
+UNITS += [scoped_ctor]
